@@ -431,10 +431,12 @@ def plan(spec: dict, conf: str, opt: bool, cls_pre: bool = False, live: bool = T
       marked           the class is marked as decorated afterwards
       complete         the attribute loop ran to its end (the dataclass `__init__` was reached)
       raised           an exception propagates out of the decoration
-      warns            subjects of the warnings issued (qualified function name, or 'Property'), in order
-    Members are decorated in dictionary order; the first member whose decoration raises ends the
+      warns            subjects of the warnings issued (qualified function names), in order
+    Members are decorated in dictionary order; the first function whose decoration raises ends the
     loop (the members after it are not reached) unless the configuration has the warning option:
-    then that member alone is left as it was, with one warning. `live=False`: not reached at all."""
+    then that FUNCTION alone (a plain method, the wrappee of a classmethod / staticmethod, one
+    accessor of a property) is left as it was, with one warning naming it; the other accessors of
+    the same property are wrapped. `live=False`: not reached at all."""
     cls_pre = (cls_pre or bool(spec.get('pre'))) and not opt
     qual = f"{qual}.{spec['name']}" if qual else spec['name']
     out = {'new': {}, 'sub': {}, 'marked': cls_pre, 'complete': cls_pre, 'raised': False, 'warns': []}
@@ -447,12 +449,10 @@ def plan(spec: dict, conf: str, opt: bool, cls_pre: bool = False, live: bool = T
             out['new'][nm] = {r: False for r, _f in fns}
             if not going:
                 continue
-            if bad:
-                if conf == 'warn':
-                    out['warns'].append('Property' if k == 'prop' else f'{qual}.{nm}()')
-                else:
-                    out['raised'], going = True, False
+            if bad and conf != 'warn':
+                out['raised'], going = True, False
                 continue
+            out['warns'] += [f'{qual}.{nm}()' for _fn in bad]
             out['new'][nm] = {r: fn_wrapped_now(fn, conf, opt, cls_pre) for r, fn in fns}
         elif k == 'class':
             sub = plan(m['body'], conf, opt, cls_pre, going, qual)
@@ -462,19 +462,6 @@ def plan(spec: dict, conf: str, opt: bool, cls_pre: bool = False, live: bool = T
                 out['raised'], going = True, False
     if going:
         out['marked'] = out['complete'] = True
-    return out
-
-
-def partial_props(spec: dict, conf: str, opt: bool, prefix: str = '') -> set:
-    """Dotted names of the properties that the class route leaves untouched as a whole although only
-    SOME accessor cannot be decorated (warning option only): decorating the accessor functions one by
-    one by hand wraps the others."""
-    out = set()
-    for m in spec['members']:
-        if m['kind'] == 'prop' and conf == 'warn' and any(fn_fails(fn, conf, opt) for _r, fn in member_fns(m)):
-            out.add(prefix + m['name'])
-        elif m['kind'] == 'class':
-            out |= partial_props(m['body'], conf, opt, f"{prefix}{m['name']}.")
     return out
 
 
